@@ -117,6 +117,8 @@ const FO: &[&str] = &[
     "p(X) :- q(X).", "p(X) :- q(X), X = X.", "p(X+1) :- q(X).", "p(Y) :- q(X), Y = X+1.", "p(1..2).", "p(1). p(2).", "p(X) :- q(X), not not p(X).", "{p(X)} :- q(X).", "p(X) :- q(X), not r(X).",
     "p(X) :- q(X), X != a.", "p(a).", "p(X) :- X = a.", "p(X) :- q(X), X < 2.", "p(X) :- q(X), 0 < X. p(X) :- q(X), X < 1.", "p(X) :- q(X), not not q(X).", ":- q(X), not p(X).", "p(X) :- q(X). :- q(X), not p(X).",
     "p(X) :- q(X), X = 0..1.", "p(0) :- q(0). p(1) :- q(1).", "{p(X)} :- q(X), not not p(X).", "p(X/2) :- q(X).", "p(X) :- q(X), r(X). p(X) :- q(X), not r(X).", "p(1..X) :- q(X).", "p(X) :- q(Y), X = 1..Y.",
+    "{p(X)} :- q(X), not r(X). r(X) :- q(X), not p(X).", ":- q(X), X > 0, not p(X). p(X) :- q(X).", "p(X) :- q(X), X != Y, q(Y).", "p(X) :- q(X), q(Y), X < Y.", "p(X*2) :- q(X). r(X) :- p(X), X > 1.", "p(X) :- q(X), not q(X+1).",
+    "p(X) :- q(X), X = #inf. p(#sup).", "p(-X) :- q(X).", "p(X) :- q(X), not not r(X). {r(X)} :- q(X).", "p(X\\2) :- q(X).", "p(X) :- q(X), 1 <= X. p(X) :- q(X), X <= 0, X >= 0.", "p(X-1..X) :- q(X).",
 ];
 
 /// programs without predicates (no transition axioms: problems without axioms), symbols whose order is not the order of
@@ -124,6 +126,7 @@ const FO: &[&str] = &[
 const SPECIAL: &[&str] = &[
     "", ":- 1 < 2. :- 2 > 3. :- 3 > 4.", ":- 1 > 2.", ":- 1 < 2.", ":- 2 > 3. :- 1 < 2.",
     "p(v9) :- q(v10). p(v10) :- q(b).", "p(v10) :- q(v9).", "p(a10) :- q(a9), q(a1).", "p(aa) :- q(aB), q(a_c), q(b).", "p(nodea) :- q(nodeA).", "p(nodeA) :- q(nodea), q(zZ), q(zz), q(z_z), q(z0), q(zA).",
+    "_p(X) :- q(X), X != _c, X != d.", "_p(_c) :- not _q(_c). _q(X) :- _p(X), X = _d.", "p(X) :- _r(X, _c), not p(_c).",
     "w(X, X, X, X, X, X, X, X, X, Y) :- q(X), q(Y).", "w(X, X, X, X, X, X, X, X, Y, X) :- q(X), q(Y).", "{w(X, X, X, X, X, X, X, X, X, Y)} :- q(X), q(Y).",
 ];
 
